@@ -150,10 +150,14 @@ def voigt(ctx):
 
 def compliance(ctx):
     loc = EC + '::ElasticConstants.'
-    c = sym6('c', real=True)
-    s = sym6('s', real=True)
+    # a concrete, fully populated symmetric positive-definite stiffness with exact entries: its exact inverse has no vanishing entry, so every weight is exercised whether the
+    # getter goes through the Sij property or inverts the stored matrix itself
+    A_ = sp.Matrix(6, 6, lambda i, j: sp.Integer(((3 * i + 5 * j + i * j) % 7) - 3))
+    Cc = A_ * A_.T + 11 * sp.eye(6)
+    c = np.array(Cc.tolist(), dtype=object)
+    s = np.array(Cc.inv().tolist(), dtype=object)
     w = [1, 1, 1, 2, 2, 2]
-    obj = _obj(ctx, c, {'Sij': s.copy()})
+    obj = _obj(ctx, c)
     t, _ = _get(ctx, obj, 'Sijkl')
     ctx.need(is_arr(t) and t.shape == (3, 3, 3, 3), 'Sijkl getter does not return a 3x3x3x3 array')
     bad = []
@@ -176,8 +180,9 @@ def compliance(ctx):
                'polynomial identity fails at %s' % bad2[:3], node=g)
     # Sij getter is the inverse of Cij; setter inverts back
     gfn = ctx.fn(EC, 'ElasticConstants.Sij')
-    invs = [x for x in calls_in(gfn) if norm(x.func) in ('np.linalg.inv', 'numpy.linalg.inv')]
-    ctx.ob('COMPLIANCE', loc + 'Sij', 'the 6x6 compliance is the matrix inverse of the 6x6 stiffness', len(invs) == 1 and norm(invs[0].args[0]) == 'self.Cij', node=gfn)
+    sij, _ = _get(ctx, _obj(ctx, c), 'Sij')
+    ctx.ob('COMPLIANCE', loc + 'Sij', 'the 6x6 compliance is the matrix inverse of the 6x6 stiffness (exact inverse of a fully populated stiffness)',
+           is_arr(sij) and sij.shape == (6, 6) and all(is_zero(sp.nsimplify(a_) - b_, deep=False) for a_, b_ in zip(np.ravel(sij), np.ravel(s))), node=gfn)
     # Sijkl setter composed with getter: argument of the inverse equals s
     obj = _obj(ctx, None)
     ev = _ev(ctx)
